@@ -148,6 +148,11 @@ NAV_STAGES = {
             "thorough": [("lookup-structure", _nav(5, 3, "ValsInt1", "NamesAB", "LookAB", "OpsLook", "RootsOA")),
                          ("lookup-names", _nav(3, 3, "ValsMix", "NamesRich", "LookRich", "OpsLook", "RootsO")),
                          ("lookup-raw", _nav(4, 3, "ValsInt1", "NamesAB", "LookAB", "OpsAll", "RootsOA"))]},
+    "C10": {"quick":    [("transcribe-structure", _nav(5, 4, "ValsInt1", "NamesAB", "LookAB", "OpsTrans", "RootsOA", 10)),
+                         ("transcribe-values", _nav(2, 3, "ValsAll", "NamesRich", "LookAB", "OpsTrans", "RootsOA", 10)),
+                         ("transcribe-mixed", _nav(4, 3, "ValsMix", "NamesAB", "LookAB", "OpsTrans", "RootsOA", 10))],
+            "thorough": [("transcribe-structure", _nav(7, 5, "ValsInt1", "NamesAB", "LookAB", "OpsTrans", "RootsOA", 10)),
+                         ("transcribe-values", _nav(3, 3, "ValsAll", "NamesRich", "LookAB", "OpsTrans", "RootsOA", 10))]},
     "C11": {"quick":    [("raw", _nav(4, 3, "ValsInt1", "NamesAB", "LookAB", "OpsNav", "RootsOA"))],
             "thorough": [("raw", _nav(6, 4, "ValsInt1", "NamesAB", "LookAB", "OpsNav", "RootsOA")),
                          ("raw-lookup", _nav(4, 3, "ValsMix", "NamesAB", "LookAB", "OpsAll", "RootsOA"))]},
